@@ -117,6 +117,9 @@ def oracle(ctx, f, c):
                                   "%s: callback fired %d times %r (expected exactly once)" % (desc, n, [(round(t, 3), ok) for t, ok in r["cb"]][:6]))
             elif r["retry"] == "RETRY_ON_TIMEOUT" and r["cb"][0][1] is not True:
                 ctx.violation("guaranteed-callback-false", "%s: guaranteed send reported %r" % (desc, r["cb"][0][1]))
+    if f.shared_sends and not f.connection_lost and f.quiescent and f.shared_calls != f.shared_sends:
+        ctx.violation("shared-callable-count", "the application passed one callable to %d unretried sends (2-3 per frame); it was invoked %d times "
+                      "(each send's callback fires exactly once)" % (f.shared_sends, f.shared_calls))
     if f.invariant_breaks and not f.connection_lost:
         t, side, a, k, to, p = f.invariant_breaks[0]
         ctx.violation("datagram-resolution-invariant", "t=%.3f side=%s assembled=%d acked=%d timeouts=%d pending=%d" % (t, side, a, k, to, p))
